@@ -168,6 +168,13 @@ func runDbLife(dir string, idx int, steps []dlStep, add func(step int, kind, wha
 	defer env.Close()
 	var notified int64
 	env.Db.AddRestoreListener(func() { atomic.AddInt64(&notified, 1) })
+	if idx%2 == 1 {
+		// an application callback that panics inside a read transaction (and recovers): the transaction is over, nothing of it stays
+		func() {
+			defer func() { _ = recover() }()
+			_ = env.Db.View(func(*bbolt.Tx) error { panic("application panic inside a read transaction") })
+		}()
+	}
 	contentAt := map[int][]string{0: contentLines(env)}
 	version := 0
 	type snap struct {
@@ -175,6 +182,7 @@ func runDbLife(dir string, idx int, steps []dlStep, add func(step int, kind, wha
 		path  string
 		data  []byte
 		lines []string
+		file  string // kept on disk (at the default snapshot location) and restored by streaming the file itself
 	}
 	var snaps []snap
 	idCalls := 0
@@ -213,6 +221,12 @@ func runDbLife(dir string, idx int, steps []dlStep, add func(step int, kind, wha
 			before := contentLines(env)
 			bs, br, bt := metaOf(env)
 			path := filepath.Join(dir, fmt.Sprintf("snap-%d-%d.bolt", idx, len(snaps)))
+			// every third behaviour keeps its first snapshot where the library suggests (next to the database, named after the
+			// current second) and later restores from that very file
+			keep := len(snaps) == 0 && idx%3 == 0
+			if keep {
+				path = env.Db.GetDefaultSnapshotPath()
+			}
 			_ = os.Remove(path)
 			actual, id, err := env.Db.Snapshot(path)
 			if err != nil {
@@ -220,8 +234,14 @@ func runDbLife(dir string, idx int, steps []dlStep, add func(step int, kind, wha
 				return
 			}
 			data, _ := os.ReadFile(actual)
-			_ = os.Remove(actual)
-			snaps = append(snaps, snap{id: id, path: actual, data: data, lines: before})
+			kept := ""
+			if keep {
+				kept = actual
+				defer os.Remove(actual)
+			} else {
+				_ = os.Remove(actual)
+			}
+			snaps = append(snaps, snap{id: id, path: actual, data: data, lines: before, file: kept})
 			if d := project.DiffLines(before, contentLines(env)); len(d) > 0 {
 				add(si, "snapshot-changed-source", strings.Join(d[:min(3, len(d))], "; "))
 			}
@@ -259,6 +279,19 @@ func runDbLife(dir string, idx int, steps []dlStep, add func(step int, kind, wha
 				if w.panic != nil {
 					add(si, "restore-window", fmt.Sprintf("restore panicked: %v", w.panic))
 					return
+				}
+			} else if snaps[s].file != "" {
+				if f, err := os.Open(snaps[s].file); err != nil {
+					add(si, "harness", "kept snapshot: "+err.Error())
+					return
+				} else {
+					env.Db.RestoreFromReader(f)
+					_ = f.Close()
+					// (the file is a snapshot: reading it does not change it)
+					if now, _ := os.ReadFile(snaps[s].file); !bytes.Equal(now, snaps[s].data) {
+						add(si, "restore-changed-snapshot", "the snapshot file differs after it was restored from")
+						return
+					}
 				}
 			} else if (si+idx)%2 == 0 {
 				env.Db.RestoreSnapshot(snaps[s].data)
